@@ -255,11 +255,20 @@ def run_scenario(sc: dict) -> list[dict]:
                 idle_rounds = 0 if progressed else idle_rounds + 1
                 if idle_rounds >= 3:
                     break
+            # the playback task is part of the code under test: if it died, that is an observation, not a harness crash
+            pt = cp.playback_task
+            player = ""
+            if pt is not None and pt.done():
+                player = "cancelled" if pt.cancelled() else (type(pt.exception()).__name__ if pt.exception() else "returned")
             rec({"k": "end", "inflight": fid.get(id(cp.inflight), 0), "left": qids(), "open_socks": len(net.open_socks()),
+                 "player": player,
                  "outcome": [("response" if getattr(f, "response", None) else "") + ("error" if f.error else "") or "none"
                              for f in flows]})
             closed["v"] = True
-            await cp.done()
+            try:
+                await cp.done()
+            except Exception:  # done() re-raises whatever killed the playback task; already recorded in "player"
+                pass
             await vloop.settle()
 
     vloop.run(main)
